@@ -11,12 +11,13 @@
 (*   field at global index g (by dimension; r,theta,z[,v]):                *)
 (*       re = (Tok(g) % 7) - 3,  im = (Tok(g) % 5) - 2   (FieldKind "tok") *)
 (*       re = 1, im = 0                                  (FieldKind "one") *)
+(*       re = Tok(g), im = 0   (FieldKind "ramp": every rank has its own local extrema) *)
 (***************************************************************************)
 EXTENDS Layouts, TLC, SequencesExt
 
 TokOf(sh, g) == Flat(g, sh)
-Re(kind, t) == IF kind = "one" THEN 1 ELSE (t % 7) - 3
-Im(kind, t) == IF kind = "one" THEN 0 ELSE (t % 5) - 2
+Re(kind, t) == IF kind = "one" THEN 1 ELSE IF kind = "ramp" THEN t ELSE (t % 7) - 3
+Im(kind, t) == IF kind \in {"one", "ramp"} THEN 0 ELSE (t % 5) - 2
 Abs(x) == IF x < 0 THEN -x ELSE x
 
 \* twice the trapezoid weight of point i (1-based) of grid x
